@@ -95,13 +95,68 @@ theorem addnLow_spec (B : Nat) (hB : 1 < B) :
         · exact hr1
         · exact ih3 d hd
 
+theorem step_add (B r V co P X c' x c : Nat) (h1 : V + co * P = X + c')
+    (h2 : r + c' * B = x + c) : r + B * V + co * (P * B) = x + B * X + c := by
+  grind
+
+theorem step_sub (B r V co P X Y c' x y c : Nat) (h1 : V + Y + c' = X + co * P)
+    (h2 : r + y + c = x + c' * B) :
+    r + B * V + (y + B * Y) + c = x + B * X + co * (P * B) := by
+  grind
+
+theorem forall_mem_cons_of {B x : Nat} {xs : List Nat} (hx : x < B) (h : ∀ d ∈ xs, d < B) :
+    ∀ d ∈ x :: xs, d < B := by
+  intro d hd
+  simp at hd
+  rcases hd with rfl | hd
+  · exact hx
+  · exact h d hd
+
+theorem add1Low_aux (B : Nat) (hB : 1 < B) :
+    ∀ (a : List Nat) (c : Nat), c < B → (∀ d ∈ a, d < B) →
+      val B (add1Low B a c).1 + (add1Low B a c).2 * B ^ a.length = val B a + c
+      ∧ (c ≤ 1 → (add1Low B a c).2 ≤ 1) ∧ (a ≠ [] → (add1Low B a c).2 ≤ 1)
+      ∧ (∀ d ∈ (add1Low B a c).1, d < B) ∧ (add1Low B a c).1.length = a.length := by
+  intro a
+  induction a with
+  | nil => intro c _ _; simp [add1Low, val]
+  | cons x xs ih =>
+    intro c hc ha
+    have hx : x < B := ha x (by simp)
+    have ha' : ∀ d ∈ xs, d < B := fun d hd => ha d (by simp [hd])
+    by_cases h0 : c = 0
+    · subst h0
+      have e : add1Low B (x :: xs) 0 = (x :: xs, 0) := by simp [add1Low]
+      rw [e]
+      exact ⟨by simp, by simp, by simp, ha, rfl⟩
+    · have key : ∃ r0 c', r0 < B ∧ c' ≤ 1 ∧ r0 + c' * B = x + c ∧
+          add1Low B (x :: xs) c = (r0 :: (add1Low B xs c').1, (add1Low B xs c').2) := by
+        by_cases h1 : x + c < B
+        · have e1 : (x + c) % B = x + c := Nat.mod_eq_of_lt h1
+          have i1 : ¬ (x + c < c) := by omega
+          refine ⟨x + c, 0, h1, by omega, by omega, ?_⟩
+          simp only [add1Low, if_neg h0, e1, if_neg i1]
+        · have e1 : (x + c) % B = x + c - B := by
+            rw [Nat.mod_eq_sub_mod (by omega)]; exact Nat.mod_eq_of_lt (by omega)
+          have i1 : x + c - B < c := by omega
+          refine ⟨x + c - B, 1, by omega, by omega, by omega, ?_⟩
+          simp only [add1Low, if_neg h0, e1, if_pos i1]
+      obtain ⟨r0, c', hr0, hc', hsum, heq⟩ := key
+      obtain ⟨ih1, ih2, _, ih3, ih4⟩ := ih c' (by omega) ha'
+      rw [heq]
+      refine ⟨?_, fun _ => ih2 hc', fun _ => ih2 hc', forall_mem_cons_of hr0 ih3, by simp [ih4]⟩
+      simp only [val, List.length_cons, Nat.pow_succ]
+      exact step_add _ _ _ _ _ _ _ _ _ ih1 hsum
+
 /-- bn_add1_low adds a single digit (any value < B) with carry propagation -/
 theorem add1Low_spec (B : Nat) (hB : 1 < B) :
     ∀ (a : List Nat) (c : Nat), c < B → (∀ d ∈ a, d < B) →
       val B (add1Low B a c).1 + (add1Low B a c).2 * B ^ a.length = val B a + c
       ∧ (a ≠ [] → (add1Low B a c).2 ≤ 1)
       ∧ (∀ d ∈ (add1Low B a c).1, d < B) ∧ (add1Low B a c).1.length = a.length := by
-  sorry
+  intro a c hc ha
+  obtain ⟨h1, _, h2, h3, h4⟩ := add1Low_aux B hB a c hc ha
+  exact ⟨h1, h2, h3, h4⟩
 
 /-- bn_subn_low: a - b - borrow_in, with borrow out -/
 theorem subnLow_spec (B : Nat) (hB : 1 < B) :
@@ -110,7 +165,99 @@ theorem subnLow_spec (B : Nat) (hB : 1 < B) :
       val B (subnLow B a b bin).1 + val B b + bin = val B a + (subnLow B a b bin).2 * B ^ a.length
       ∧ (subnLow B a b bin).2 ≤ 1
       ∧ (∀ d ∈ (subnLow B a b bin).1, d < B) ∧ (subnLow B a b bin).1.length = a.length := by
-  sorry
+  intro a
+  induction a with
+  | nil =>
+    intro b carry hl hc _ _
+    cases b with
+    | nil => simp [subnLow, val, hc]
+    | cons _ _ => simp at hl
+  | cons x xs ih =>
+    intro b carry hl hc ha hb
+    cases b with
+    | nil => simp at hl
+    | cons y ys =>
+      simp only [List.length_cons, Nat.add_right_cancel_iff] at hl
+      have hx : x < B := ha x (by simp)
+      have hy : y < B := hb y (by simp)
+      have ha' : ∀ d ∈ xs, d < B := fun d hd => ha d (by simp [hd])
+      have hb' : ∀ d ∈ ys, d < B := fun d hd => hb d (by simp [hd])
+      have key : ∃ r0 c', r0 < B ∧ c' ≤ 1 ∧ r0 + y + carry = x + c' * B ∧
+          subnLow B (x :: xs) (y :: ys) carry =
+            (r0 :: (subnLow B xs ys c').1, (subnLow B xs ys c').2) := by
+        by_cases h1 : x < y
+        · -- diff = x + B - y, in (0, B)
+          have e1 : (x + B - y) % B = x + B - y := Nat.mod_eq_of_lt (by omega)
+          have e2 : (x + B - y + B - carry) % B = x + B - y - carry := by
+            rw [Nat.mod_eq_sub_mod (by omega)]
+            rw [Nat.mod_eq_of_lt (by omega)]; omega
+          have i1 : x < y ∨ (carry ≠ 0 ∧ x + B - y = 0) := Or.inl h1
+          refine ⟨x + B - y - carry, 1, by omega, by omega, by omega, ?_⟩
+          simp only [subnLow, e1, e2, if_pos i1]
+        · have e1 : (x + B - y) % B = x - y := by
+            rw [Nat.mod_eq_sub_mod (by omega)]
+            rw [Nat.mod_eq_of_lt (by omega)]; omega
+          by_cases h2 : carry ≠ 0 ∧ x - y = 0
+          · have e2 : (x - y + B - carry) % B = B - 1 := by
+              rw [Nat.mod_eq_of_lt (by omega)]; omega
+            have i1 : x < y ∨ (carry ≠ 0 ∧ x - y = 0) := Or.inr h2
+            refine ⟨B - 1, 1, by omega, by omega, by omega, ?_⟩
+            simp only [subnLow, e1, e2, if_pos i1]
+          · have e2 : (x - y + B - carry) % B = x - y - carry := by
+              rw [Nat.mod_eq_sub_mod (by omega)]
+              rw [Nat.mod_eq_of_lt (by omega)]; omega
+            have i1 : ¬ (x < y ∨ (carry ≠ 0 ∧ x - y = 0)) := by
+              intro h; rcases h with h | h
+              · exact h1 h
+              · exact h2 h
+            refine ⟨x - y - carry, 0, by omega, by omega, by omega, ?_⟩
+            simp only [subnLow, e1, e2, if_neg i1]
+      obtain ⟨r0, c', hr0, hc', hsum, heq⟩ := key
+      obtain ⟨ih1, ih2, ih3, ih4⟩ := ih ys c' hl hc' ha' hb'
+      rw [heq]
+      refine ⟨?_, ih2, forall_mem_cons_of hr0 ih3, by simp [ih4]⟩
+      simp only [val, List.length_cons, Nat.pow_succ]
+      exact step_sub _ _ _ _ _ _ _ _ _ _ _ ih1 hsum
+
+theorem sub1Low_aux (B : Nat) (hB : 1 < B) :
+    ∀ (a : List Nat) (c : Nat), c < B → (∀ d ∈ a, d < B) →
+      val B (sub1Low B a c).1 + c = val B a + (sub1Low B a c).2 * B ^ a.length
+      ∧ (c ≤ 1 → (sub1Low B a c).2 ≤ 1) ∧ (a ≠ [] → (sub1Low B a c).2 ≤ 1)
+      ∧ (∀ d ∈ (sub1Low B a c).1, d < B) ∧ (sub1Low B a c).1.length = a.length := by
+  intro a
+  induction a with
+  | nil => intro c _ _; simp [sub1Low, val]
+  | cons x xs ih =>
+    intro c hc ha
+    have hx : x < B := ha x (by simp)
+    have ha' : ∀ d ∈ xs, d < B := fun d hd => ha d (by simp [hd])
+    by_cases h0 : c = 0
+    · subst h0
+      have e : sub1Low B (x :: xs) 0 = (x :: xs, 0) := by simp [sub1Low]
+      rw [e]
+      exact ⟨by simp, by simp, by simp, ha, rfl⟩
+    · have ec : c % B = c := Nat.mod_eq_of_lt hc
+      have key : ∃ r0 c', r0 < B ∧ c' ≤ 1 ∧ r0 + c = x + c' * B ∧
+          sub1Low B (x :: xs) c = (r0 :: (sub1Low B xs c').1, (sub1Low B xs c').2) := by
+        by_cases h1 : x < c
+        · have e1 : (x + B - c) % B = x + B - c := Nat.mod_eq_of_lt (by omega)
+          have i1 : x + B - c > x := by omega
+          refine ⟨x + B - c, 1, by omega, by omega, by omega, ?_⟩
+          simp only [sub1Low, if_neg h0, ec, e1, if_pos i1]
+        · have e1 : (x + B - c) % B = x - c := by
+            rw [Nat.mod_eq_sub_mod (by omega)]
+            rw [Nat.mod_eq_of_lt (by omega)]; omega
+          have i1 : ¬ (x - c > x) := by omega
+          refine ⟨x - c, 0, by omega, by omega, by omega, ?_⟩
+          simp only [sub1Low, if_neg h0, ec, e1, if_neg i1]
+      obtain ⟨r0, c', hr0, hc', hsum, heq⟩ := key
+      obtain ⟨ih1, ih2, _, ih3, ih4⟩ := ih c' (by omega) ha'
+      rw [heq]
+      refine ⟨?_, fun _ => ih2 hc', fun _ => ih2 hc', forall_mem_cons_of hr0 ih3, by simp [ih4]⟩
+      simp only [val, List.length_cons, Nat.pow_succ]
+      have := step_sub B r0 (val B (sub1Low B xs c').1) (sub1Low B xs c').2 (B ^ xs.length)
+        (val B xs) 0 c' x c 0 (by omega) (by omega)
+      omega
 
 /-- bn_sub1_low subtracts a single digit (any value < B) with borrow propagation -/
 theorem sub1Low_spec (B : Nat) (hB : 1 < B) :
@@ -118,6 +265,8 @@ theorem sub1Low_spec (B : Nat) (hB : 1 < B) :
       val B (sub1Low B a c).1 + c = val B a + (sub1Low B a c).2 * B ^ a.length
       ∧ (a ≠ [] → (sub1Low B a c).2 ≤ 1)
       ∧ (∀ d ∈ (sub1Low B a c).1, d < B) ∧ (sub1Low B a c).1.length = a.length := by
-  sorry
+  intro a c hc ha
+  obtain ⟨h1, _, h2, h3, h4⟩ := sub1Low_aux B hB a c hc ha
+  exact ⟨h1, h2, h3, h4⟩
 
 end Relic.Model
